@@ -149,7 +149,7 @@ def one_reference(case, acc, r, taps, rnd):
             rev = reverse if who == 1 else (not reverse)
             flag = 1 | 2 | (64 if who == 1 else 128) | (16 if rev else 0) | (32 if not rev else 0)
             recs.append({'name': f'f{fid}', 'flag': flag, 'tid': 0, 'pos': a, 'mapq': 60, 'cigar': cigar, 'seq': seq,
-                         'qual': [r.choice([20, 30, 30, 37]) for _ in seq] if r.random() < 0.5 else [30] * len(seq),
+                         'qual': [r.choice([20, 30, 30, 37, 0, 0, 2]) for _ in seq] if r.random() < 0.5 else [r.choice([30, 30, 30, 0])] * len(seq),
                          'tags': {'MD': md, 'NM': nm, 'SM': 'cell', 'RX': 'ACG'}, 'next_tid': 0, 'next_pos': 0})
         if kind == 'single':
             recs[1] = None
